@@ -61,6 +61,7 @@ type tr struct {
 	split     map[string]bool       // functions whose top-level switch is emitted one definition per case
 	ownSlice  map[types.Object]bool // local byte slices created by make: element stores are allowed
 	usesFmt   bool
+	curBufs   []string // names of the *bytes.Buffer parameters of the function being translated (in/out: returned last)
 	extUsed   map[string]string // oracle name -> Gallina type
 	extOrder  []string
 }
@@ -905,8 +906,15 @@ func (t *tr) call(e *ast.CallExpr, b *binds, stmt bool) string {
 			return "(fmt_d " + t.expr(e.Args[1], b) + ")"
 		case "strconv.AppendFloat":
 			// strconv.AppendFloat(nil, f, 'f', -1, N): the oracle ext_ffmt N (bits of f at width N)
-			if len(e.Args) != 5 || !isNil(e.Args[0]) || !constIs(e.Args[2], 'f') || !constIs(e.Args[3], -1) {
+			if len(e.Args) != 5 || !isNil(e.Args[0]) || !(constIs(e.Args[2], 'f') || constIs(e.Args[2], 'E')) || !constIs(e.Args[3], -1) {
 				t.fail(e, "strconv.AppendFloat shape")
+			}
+			if constIs(e.Args[2], 'E') {
+				// 'E' formatting of a float64: the oracle ext_efmt (bits)
+				if floatBits(t.info.TypeOf(e.Args[1])) != 64 || !constIs(e.Args[4], 64) {
+					t.fail(e, "strconv.AppendFloat 'E' of a non-float64")
+				}
+				return fmt.Sprintf("(%s %s)", t.oracle("ext_efmt", "Z -> bytes"), t.expr(e.Args[1], b))
 			}
 			f := e.Args[1]
 			width := floatBits(t.info.TypeOf(f))
@@ -1005,15 +1013,52 @@ func (t *tr) call(e *ast.CallExpr, b *binds, stmt bool) string {
 	if recv != nil {
 		args = append(args, t.expr(recv, b))
 	}
+	var bufArgs []string
 	for _, a := range e.Args {
 		if isBuffer(t.info.TypeOf(a)) {
-			t.fail(e, "a bytes.Buffer passed to a function (aliasing is not modelled)")
+			// a local buffer handed to the callee: in/out, the callee returns its new contents last
+			id, ok := a.(*ast.Ident)
+			if !ok {
+				t.fail(e, "a bytes.Buffer argument that is not a variable")
+			}
+			bufArgs = append(bufArgs, vname(id.Name))
 		}
 		args = append(args, t.expr(a, b))
 	}
 	v := t.tmp()
-	b.add(fmt.Sprintf("do %s <- %s %s;", v, gname(k), strings.Join(args, " ")))
-	return v
+	if len(bufArgs) == 0 {
+		b.add(fmt.Sprintf("do %s <- %s %s;", v, gname(k), strings.Join(args, " ")))
+		return v
+	}
+	csig := t.info.Defs[t.funcs[k].Name].(*types.Func).Type().(*types.Signature)
+	nres := csig.Results().Len()
+	if nres > 0 && isError(csig.Results().At(nres-1).Type()) {
+		nres--
+	}
+	var pats, outs []string
+	for i := 0; i < nres; i++ {
+		x := t.tmp()
+		pats = append(pats, x)
+		outs = append(outs, x)
+	}
+	var rebinds []string
+	for _, ba := range bufArgs {
+		x := t.tmp()
+		pats = append(pats, x)
+		rebinds = append(rebinds, fmt.Sprintf("let %s := %s in", ba, x))
+	}
+	pat := pats[0]
+	if len(pats) > 1 {
+		pat = "'(" + strings.Join(pats, ", ") + ")"
+	}
+	b.add(fmt.Sprintf("do %s <- %s %s; %s", pat, gname(k), strings.Join(args, " "), strings.Join(rebinds, " ")))
+	switch len(outs) {
+	case 0:
+		return "tt"
+	case 1:
+		return outs[0]
+	}
+	return "(" + strings.Join(outs, ", ") + ")"
 }
 
 // ---- statements ----
@@ -1040,6 +1085,23 @@ func (t *tr) ret(s *ast.ReturnStmt, ev env) string {
 	hasErr := n > 0 && isError(ev.results.At(n-1).Type())
 	var b binds
 	var vals []string
+	bufOut := func() string {
+		var bs []string
+		for _, n := range t.curBufs {
+			bs = append(bs, vname(n))
+		}
+		if len(bs) == 1 {
+			return bs[0]
+		}
+		return "(" + strings.Join(bs, ", ") + ")"
+	}
+	if hasErr && n == 1 && len(t.curBufs) > 0 {
+		if c, ok := s.Results[0].(*ast.CallExpr); ok && isError(t.info.TypeOf(c)) && t.pkgCall(c) {
+			// return f(..., result): the callee's error is propagated by the bind, its buffer contents are returned
+			t.call(c, &b, true)
+			return strings.TrimSpace(strings.Join(b.lines, " ") + " Ok " + bufOut())
+		}
+	}
 	if hasErr {
 		if id, ok := s.Results[n-1].(*ast.Ident); !(ok && id.Name == "nil") {
 			if ok && t.deadErr[t.objOf(id)] {
@@ -1062,6 +1124,9 @@ func (t *tr) ret(s *ast.ReturnStmt, ev env) string {
 		}
 		vals = append(vals, t.expr(r, &b))
 	}
+	for _, n := range t.curBufs {
+		vals = append(vals, vname(n))
+	}
 	out := "tt"
 	if len(vals) == 1 {
 		out = vals[0]
@@ -1075,6 +1140,9 @@ func (t *tr) ret(s *ast.ReturnStmt, ev env) string {
 func (t *tr) stmts(list []ast.Stmt, k [][]ast.Stmt, ev env) string {
 	if len(list) == 0 {
 		if len(k) == 0 {
+			if ev.results.Len() == 0 && len(t.curBufs) > 0 {
+				return t.ret(&ast.ReturnStmt{}, ev) // a function without results that writes to a buffer: its contents
+			}
 			t.fail(nil, "control reaches the end of the function")
 		}
 		return t.stmts(k[0], k[1:], ev)
@@ -1096,6 +1164,13 @@ func (t *tr) stmts(list []ast.Stmt, k [][]ast.Stmt, ev env) string {
 		if c, ok := s.X.(*ast.CallExpr); ok {
 			if r, ok := t.effectCall(c); ok {
 				return r + "\n  " + cont()
+			}
+			if id, ok := c.Fun.(*ast.Ident); ok {
+				if fn, ok := t.info.Uses[id].(*types.Func); ok && fn.Pkg() == t.pkg {
+					var b binds
+					t.call(c, &b, true)
+					return strings.Join(b.lines, " ") + "\n  " + cont()
+				}
 			}
 		}
 		t.fail(s, "expression statement")
@@ -1402,6 +1477,16 @@ func (t *tr) stmts(list []ast.Stmt, k [][]ast.Stmt, ev env) string {
 	return ""
 }
 
+// pkgCall: a call of a function of the package being translated (not a library call such as fmt.Errorf)
+func (t *tr) pkgCall(c *ast.CallExpr) bool {
+	id, ok := c.Fun.(*ast.Ident)
+	if !ok {
+		return false
+	}
+	fn, ok := t.info.Uses[id].(*types.Func)
+	return ok && fn.Pkg() == t.pkg
+}
+
 // bufferTarget: the local variable a buffer-mutating call statement writes to (txt.WriteByte(..), fmt.Fprintf(txt, ..),
 // copy(d, ..)), or nil.
 func (t *tr) bufferTarget(c *ast.CallExpr) *ast.Ident {
@@ -1528,9 +1613,12 @@ func (t *tr) assigned(list []ast.Stmt, declared map[types.Object]bool, out *[]*t
 				}
 			case *ast.IncDecStmt:
 				note(n.X)
-			case *ast.ExprStmt:
-				if c, ok := n.X.(*ast.CallExpr); ok {
-					if id := t.bufferTarget(c); id != nil {
+			case *ast.CallExpr:
+				if id := t.bufferTarget(n); id != nil {
+					note(id)
+				}
+				for _, a := range n.Args {
+					if id, ok := a.(*ast.Ident); ok && isBuffer(t.info.TypeOf(id)) {
 						note(id)
 					}
 				}
@@ -1715,6 +1803,18 @@ func (t *tr) assign(s *ast.AssignStmt) string {
 					}
 				}
 			}
+			// err := f(...) where f returns only an error: the bind propagates it
+			if len(s.Lhs) == 1 {
+				if c, ok := s.Rhs[0].(*ast.CallExpr); ok && isError(t.info.TypeOf(c)) && t.pkgCall(c) {
+					if id, ok := s.Lhs[0].(*ast.Ident); ok {
+						t.call(c, &b, true)
+						if id.Name != "_" {
+							t.deadErr[t.objOf(id)] = true
+						}
+						return join(strings.Join(b.lines, " "))
+					}
+				}
+			}
 			// d := make([]byte, n): a slice the function owns (element stores allowed, never aliased)
 			if len(s.Lhs) == 1 && s.Tok == token.DEFINE {
 				if c, ok := s.Rhs[0].(*ast.CallExpr); ok {
@@ -1868,6 +1968,18 @@ func (t *tr) function(k string) {
 		}
 		rts = append(rts, t.coqType(fd, res.At(i).Type()))
 	}
+	savedBufs := t.curBufs
+	t.curBufs = nil
+	for i := 0; i < sig.Params().Len(); i++ {
+		if p := sig.Params().At(i); isBuffer(p.Type()) {
+			if p.Name() == "" || p.Name() == "_" {
+				t.fail(fd, "unnamed buffer parameter")
+			}
+			t.curBufs = append(t.curBufs, p.Name())
+			rts = append(rts, "bytes")
+		}
+	}
+	defer func() { t.curBufs = savedBufs }()
 	namedInit := ""
 	for i := 0; i < res.Len(); i++ {
 		if n := res.At(i).Name(); n != "" && n != "_" && !isError(res.At(i).Type()) {
